@@ -1,6 +1,7 @@
 package gen
 
 import (
+	"fmt"
 	"math/big"
 
 	"pgregory.net/rapid"
@@ -132,4 +133,52 @@ func GLVScalar(t *rapid.T, label string) (*big.Int, string) {
 	default:
 		return Int256(t, n, label), kind
 	}
+}
+
+// ExceptionalDouble draws (k, u1, u2) for the evaluation of u1*G + u2*P with
+// P = k*G such that an accumulator that starts at u2*P and then adds the
+// fixed-base table entries for the windows of u1 one after the other (width 4
+// or 8 bits, from the top or from the bottom) is, just before it adds the
+// entry W = digit*2^(w*i)*G of some window i, equal to +-W itself: an addition
+// formula that is not complete (no doubling / no P + (-P) case) fails exactly
+// there.  u2 = (+-W - processed)/k where processed is the part of u1 already
+// added.  The total u1 + u2*k is otherwise unremarkable.
+func ExceptionalDouble(t *rapid.T, label string) (k, u1, u2 *big.Int, kind string) {
+	n := ref.N
+	k = NonZero256(t, n, label+"_k")
+	u1 = new(big.Int).Mod(Uniform256(t, label+"_u1"), n)
+	w := uint(Sampled([]int{4, 8}).Draw(t, label+"_w"))
+	nw := 256 / int(w)
+	i := rapid.IntRange(0, nw-1).Draw(t, label+"_win")
+	if rapid.IntRange(0, 2).Draw(t, label+"_edge") == 0 { // the first or last window processed
+		i = Sampled([]int{0, nw - 1}).Draw(t, label+"_edgewin")
+	}
+	mask := new(big.Int).Sub(new(big.Int).Lsh(one, w), one)
+	digit := new(big.Int).And(new(big.Int).Rsh(u1, w*uint(i)), mask)
+	if digit.Sign() == 0 { // make the window non-zero
+		u1.Add(u1, new(big.Int).Lsh(one, w*uint(i)))
+		u1.Mod(u1, n)
+		digit = new(big.Int).And(new(big.Int).Rsh(u1, w*uint(i)), mask)
+		if digit.Sign() == 0 {
+			return k, u1, Int256(t, n, label+"_u2"), "independent"
+		}
+	}
+	W := new(big.Int).Lsh(digit, w*uint(i))
+	high := new(big.Int).Rsh(u1, w*uint(i+1))
+	high.Lsh(high, w*uint(i+1))
+	low := new(big.Int).And(u1, new(big.Int).Sub(new(big.Int).Lsh(one, w*uint(i)), one))
+	processed := high
+	dir := "top-down"
+	if rapid.Bool().Draw(t, label+"_bottomup") {
+		processed, dir = low, "bottom-up"
+	}
+	sign := "+"
+	tgt := new(big.Int).Set(W)
+	if rapid.Bool().Draw(t, label+"_negw") {
+		tgt.Neg(tgt)
+		sign = "-"
+	}
+	tgt.Sub(tgt, processed)
+	u2 = ref.MulM(ref.Mod(tgt, n), ref.Inv0(k, n), n)
+	return k, u1, u2, fmt.Sprintf("exceptional-window:w%d:%s:%s", w, dir, sign)
 }
